@@ -200,7 +200,7 @@ package slice
 //@   ensures [C12] subseq: len(vs) > 0 ==> forall k int :: {result[k]} 0 <= k && k < len(result) ==> 0 <= w[k] && w[k] < len(vs) && result[k] == vs[w[k]]
 //@   ensures [C12] order: len(vs) > 0 ==> forall a int, b int :: {result[a], result[b]} 0 <= a && b == a + 1 && b < len(result) ==> w[a] < w[b] && ord(cmp, result[a], result[b]) < 0
 //@   ensures [C12] input: unchanged(elems(vs))
-//@   ensures [C12] potential: forall j int, x int :: {cl[j], cl[x]} 0 <= j && j < x && x < len(vs) && ord(cmp, vs[j], vs[x]) <= 0 ==> cl[j] < cl[x]
+//@   ensures [C12] potential: forall j int, x int :: {cl[j], cl[x]} 0 <= j && j < x && x < len(vs) && ord(cmp, vs[j], vs[x]) < 0 ==> cl[j] < cl[x]
 //@   ensures [C12] lengths: len(vs) > 0 ==> forall x int :: {cl[x]} 0 <= x && x < len(vs) ==> 1 <= cl[x] && cl[x] <= len(result)
 //@   at after "tails[0] = 0": ghost cl[0] = 1
 //@   at after "tails = append(tails, i)": ghost cl[i] = len(tails)
